@@ -1,5 +1,6 @@
 import JominiModel.Proofs.BinCut
 import JominiModel.Proofs.TextTapeCut
+import JominiModel.Proofs.BinTapeCut
 /-
 C19 — Truncated documents never yield fabricated data.
 
